@@ -245,7 +245,7 @@ func runMwCase(c mwCase) (res mwRes) {
 				cl.resume <- 0
 				continue
 			case <-fin:
-			case <-time.After(3 * time.Second):
+			case <-time.After(vSlack(3 * time.Second)):
 				res.Note += " writers left behind"
 			}
 			break
@@ -281,7 +281,7 @@ func runMwCase(c mwCase) (res mwRes) {
 
 	// settle: wait until every writer with a Write in progress is at rest; log what arrived
 	settle := func() bool {
-		deadline := time.Now().Add(15 * time.Second)
+		deadline := time.Now().Add(vSlack(15 * time.Second))
 		var rets []mwDone
 		var arrs []*mwCall
 		parked := make([]bool, c.K)
@@ -678,7 +678,7 @@ wait:
 	conn.Close()
 	select {
 	case <-fin:
-	case <-time.After(5 * time.Second):
+	case <-time.After(vSlack(5 * time.Second)):
 		res.Hung = true
 	}
 	close(stop)
